@@ -701,6 +701,8 @@ var svgDocs = []string{
 	`<svg width="10" height="6"><g transform="matrix(1 0)"><path d="M1 1L9 1L9 5z" fill="#f00"/></g><rect width="2" height="x"/><path d="M2 2H4"/></svg>`,
 	`<svg width="10" height="6"><path d="M1 1L9"/><path d="L2"/><path d="M0 0L1 1"/><polygon points="0 0 1"/></svg>`,
 	`<svg width="10" height="6"><defs><linearGradient id="g"><stop offset="0" stop-color="#fff"/></linearGradient></defs><rect width="2" height="2" fill='url("#g")' stroke='url("#")'/><circle r="1" fill="url(#g)" stroke="url(#)"/></svg>`,
+	// elements after the root element has been closed (the element stack is empty again), with child and descendant rules
+	`<svg width="10" height="6"><style>g > rect{fill:red}svg > path{fill:blue}g rect, * > circle{stroke:#000}</style><g><rect width="2" height="2"/></g></svg><rect width="5" height="5"/><path d="M0 0L1 1"/><g><circle r="1"/></g>`,
 }
 
 func svgFamily() fw.Family {
@@ -788,7 +790,7 @@ func Prop() *fw.Property {
 		Level: "model_checking",
 		Rule: "printer side: every distinct state of the C10 call-history search (and a grid of numeric edge values): ParseSVGPath(String()) has the same data (1e-9), " +
 			"ParseSVGPath(ToSVG()) traces the same geometry within 10^(1-Precision)*scale for Precision 8 and 3, ToPDF and ToPS executed by independent operator interpreters trace the same geometry; " +
-			"parser side: every byte string up to the length bound over {M m L l H Z z A Q T C S 0 1 . - + e , space}, every one-byte truncation/deletion/substitution of 32 valid path strings and of 10 SVG documents (three of which already contain errors, so that mutations give documents with two errors): " +
+			"parser side: every byte string up to the length bound over {M m L l H Z z A Q T C S 0 1 . - + e , space}, every one-byte truncation/deletion/substitution of 32 valid path strings and of 11 SVG documents (three of which already contain errors, so that mutations give documents with two errors): " +
 			"returns a value or an error, never panics or hangs, and a returned path passes the C10 data-stream validator",
 		Assumptions: []string{
 			"states: builder histories up to depth 3 (quick) / 4 (thorough) over the C10 alphabet plus shape constructors; strings up to length 5 (quick) / 6 (thorough)",
